@@ -76,12 +76,21 @@ def scenario(ck, trial, tier, cs0):
         t = net.clock()
         nsteps = 50 if tier == 'quick' else 100
         mid = 10
+        # every second scenario starts with a scripted prefix: dial the known addresses, an incoming peer greets, the
+        # greeting listener greets and then closes, the incoming peer announces that very address, the manager steps 1 s
+        # later (the address was dialled a moment ago: no retry is due) and again 8 s later
+        script = [(0.1, {'dt': 0}), (0.7, {'h': 4}), (0.45, {'h': 1}), (0.55, {'h': 1}), (0.8, {'ann': [(1, 2412)]}),
+                  (0.1, {'dt': 1}), (0.1, {'dt': 8}), (0.1, {'dt': 1})] if trial % 2 == 0 else []
         for step in range(nsteps):
             r = rng.random()
+            ov = {}
+            if step < len(script):
+                r, ov = script[step]
             rp = {'trial': trial, 'step': step}
             ev = None
             if r < 0.35:
                 dt = rng.choice([0, 1, 5, 9, 10, 11, 19, 20, 21, 40, 100, 700, 2000])
+                dt = ov.get('dt', dt)
                 t += dt
                 node.step(t)
                 for s_ in srv.values():
@@ -122,7 +131,7 @@ def scenario(ck, trial, tier, cs0):
                 kind = 'direct-connect'
             elif r < 0.5:
                 # a server says hello on one of its live connections
-                h = rng.choice([1, 2])
+                h = ov.get('h', rng.choice([1, 2]))
                 live = srv[h].live()
                 if not live:
                     continue
@@ -140,7 +149,7 @@ def scenario(ck, trial, tier, cs0):
                 kind = 'hello/%s' % ('self' if h == 2 else 'foreign')
             elif r < 0.62:
                 # a server drops one of its connections
-                h = rng.choice([1, 3, 3])
+                h = ov.get('h', rng.choice([1, 3, 3]))
                 live = srv[h].live()
                 if not live:
                     continue
@@ -156,7 +165,7 @@ def scenario(ck, trial, tier, cs0):
                 kind = 'remote-close'
             elif r < 0.75:
                 # an incoming connection, optionally followed by its hello (announcing a listening port)
-                h = rng.choice([1, 4, 5])
+                h = ov.get('h', rng.choice([1, 4, 5]))
                 p = simnet.RawPeer(net, host=HOSTS[h]).connect(node)
                 port = p.sock.local_addr[1]
                 incoming[(h, port)] = p
@@ -175,6 +184,13 @@ def scenario(ck, trial, tier, cs0):
                 if p.sock.closed or p.sock.remote_closed:
                     continue
                 ann = [(rng.choice([1, 3, 4, 5]), rng.choice([2412, 2412, 2600])) for _ in range(rng.choice([1, 2, 3]))]
+                # half of the announcements name an address the node already knows and is waiting to retry
+                waiting = sorted((HID[k[0]], k[1]) for k, d_ in nm.disconnected_peers.items()
+                                 if k[0] in HID and d_.last_connection_attempt is not None)
+                if waiting and rng.random() < 0.5:
+                    ann[0] = rng.choice(waiting)
+                    ck.count('announcement-of-address-waiting-for-retry')
+                ann = ov.get('ann', ann)
                 mid += 1
                 msg = M.PeersMessage([M.Peer(0, IPv6Address('::FFFF:%s' % HOSTS[a]), pt) for a, pt in ann])
                 p.send(framed(net, msg, mid))
